@@ -19,6 +19,9 @@ from .env import VERIF_DIR
 MAX_BUCKETS = 4  # distinct failure labels enumerated per shard before giving up
 
 
+CLEAR_EVERY = int(os.environ.get("VERIF_CLEAR_EVERY", "250"))
+
+
 def _structure_labels(case):
     """Exact-structure regimes drawn by the shared generators (gen._exact_structure and friends) are recorded on the parameter
     dicts themselves; surface them in the label histogram of every check."""
@@ -116,6 +119,15 @@ def run_shard(args):
                 case = jsonable(case)
                 fails = sub.run(case)
                 state["evals"] += 1
+                if state["evals"] % CLEAR_EVERY == 0:
+                    # bound the memory of long shards: compiled executables accumulate per shape (several GB per worker in the
+                    # thorough tier); the on-disk XLA cache makes the recompilation cheap
+                    import gc
+
+                    import jax
+
+                    jax.clear_caches()
+                    gc.collect()
                 cj = json.dumps(case, sort_keys=True)
                 if sub.nontrivial(case):
                     nontriv.add(_case_hash(cj))
